@@ -79,7 +79,9 @@ func (p *Program) ApplyLayout(prog *Program) {
 
 func (p *Program) ApplyComponent(name string, prog *Program, progFilePath string) *fail.Error {
 	for _, comp := range p.Components {
-		if comp.Name.Value != name {
+		// the program is attached to the first use of the component
+		// that doesn't have one yet; every use gets its own program
+		if comp.Name.Value != name || comp.Block != nil {
 			continue
 		}
 
@@ -112,6 +114,8 @@ func (p *Program) ApplyComponent(name string, prog *Program, progFilePath string
 		}
 
 		comp.Block = prog
+
+		break
 	}
 
 	return nil
